@@ -160,6 +160,13 @@ def r17_3(ctx):
                     ctx.instance(construct(f, "helper-created"), sample={"helper": repr(helper), "tracked_in": [e.attr for e in tracked]})
                     if not tracked:
                         ctx.violation(construct(f, "helper-untracked"), a.loc, "a helper task is appended to workflow.task_list without being recorded for removal in the same block")
+                    # the helper appended in one iteration must be an object created in that iteration: an object that comes from
+                    # anywhere else (a cache, an earlier iteration) can be appended more than once but is removed only once
+                    created_here = isinstance(helper, Obj) and helper.name.startswith("new") and \
+                        any(isinstance(e, Call) and e.ret is helper or (isinstance(e, Call) and isinstance(e.ret, Obj) and e.ret == helper) for e in tr)
+                    if not created_here:
+                        ctx.violation(construct(f, "helper-not-fresh"), a.loc, f"the task appended to workflow.task_list in the helper loop ({helper!r}) is not created in the same iteration on every "
+                                      "path: the same helper can be appended for several tail tasks, but the clean-up removes each recorded helper once")
                     if not linked:
                         ctx.note("helper task appended without append_input_task link")
         direct = [e for e in top if isinstance(e, Mut) and e.attr == "task_list" and e.op in ("append", "insert")]
